@@ -192,4 +192,48 @@ CHECKS = {
              "thorough": {"checks": 2500, "shards": 16, "timeout": 3400}},
         ],
     },
+    "C04": {
+        "level": "fault_enumeration",
+        "level_text": ("Histories of 1-3 interrupted runs followed by an uninterrupted resumed run. Every run executes the real sender and "
+                       "receiver inside a child process (the test binary re-executed) over the in-memory transport, so only the output "
+                       "directory survives; the child journals every crash-point hook hit (file truncated, chunk written, chunk marked, "
+                       "flush begin / temp written / renamed, finalize before/after) and SIGKILLs itself at the drawn hit, or loses the "
+                       "connection there and exits with or without flushing; metadata flushes are additionally triggered concurrently "
+                       "with the chunk writers. A fixed workload is killed at EVERY hook hit 1..K under two flush policies. Oracle: the "
+                       "final run succeeds with the identical tree; chunks marked in loadable metadata before a run are advertised in that "
+                       "run's first resume report (parsed from the wire) and, below the highest marked chunk, not sent again."),
+        "level_note": "SIGKILL keeps the page cache: this decides process death, not power loss. Complete at hook granularity only. Trusted: the harness's wire decoder and the production LoadSidecar used for inspection.",
+        "technique": "crash-point enumeration and generated interruption chains with real SIGKILL of a child process at instrumented points; whole-tree and wire-level oracles (rapid + enumeration)",
+        "rule": ("history = workload (1-4 files, <= 12 chunks, chunk 16-512, 1-4 streams, both root modes) x chain of interruptions "
+                 "(kill or connection drop at a hook-hit fraction, flush-every-n-marks policy, exit with/without flush) x hash delay; "
+                 "crashpoints unit: every k in 1..K for fixed workloads x 2 flush policies. Non-trivial = at least one kill after a chunk "
+                 "had been marked; distinct by chain and workload fingerprint / by (workload, k, policy)."),
+        "assumptions": ["process death is modelled by SIGKILL (page cache survives)"],
+        "exhaustive_if_units": ["crashpoints"],
+        "units": [
+            {"name": "xfer", "pkg": X, "run": "^TestVerifC04|^TestVerifC0405", "common": {"env": {"VERIF_CRASH_PROP": "C04"}},
+             "quick": {"checks": 100, "shards": 8, "timeout": 900},
+             "thorough": {"checks": 300, "shards": 16, "timeout": 3400}},
+        ],
+    },
+    "C05": {
+        "level": "fault_enumeration",
+        "level_text": ("Same child-process crash machinery as C04, biased to the write -> mark -> flush window (2-4 streams, a metadata "
+                       "flush triggered concurrently at every 1st-3rd chunk mark, fresh and already-resumed output directories). After "
+                       "EVERY kill the parent inspects the disk: each *.sbxmap the tool would load is either rejected by LoadSidecar or "
+                       "marks only chunks whose bytes in the output file equal the source; a sidecar that was valid before the run or whose "
+                       "flush completed in it must still load after the kill (atomic replacement). A fixed workload is killed at every "
+                       "hook hit 1..K under two flush policies."),
+        "level_note": "SIGKILL keeps the page cache (process death, not power loss); observation instants are exactly the hook sites. Trusted: LoadSidecar for reading back (its own soundness is C06's subject).",
+        "technique": "crash-point enumeration with real SIGKILL of a child process at instrumented points and on-disk invariant inspection (rapid + enumeration)",
+        "rule": ("as C04, kills only; non-trivial = a kill after which metadata on disk marks >= 1 chunk while >= 1 written chunk is not "
+                 "yet flushed; crashpoints unit: every k in 1..K x 2 flush policies (all counted as distinct)."),
+        "assumptions": ["process death is modelled by SIGKILL (page cache survives)"],
+        "exhaustive_if_units": ["crashpoints"],
+        "units": [
+            {"name": "xfer", "pkg": X, "run": "^TestVerifC05|^TestVerifC0405", "common": {"env": {"VERIF_CRASH_PROP": "C05"}},
+             "quick": {"checks": 100, "shards": 8, "timeout": 900},
+             "thorough": {"checks": 300, "shards": 16, "timeout": 3400}},
+        ],
+    },
 }
